@@ -114,6 +114,17 @@ fn build(c: &Case) -> (ElfSpec, Vec<(u64, Vec<String>)>) {
             segs.push(Seg { p_type: PT_GNU_RELRO, flags: 4, vaddr: slot + sh.off, file: vec![], memsz: ms.min(0x10), align: 1 });
         }
     }
+    if c.extras & 2 != 0 {
+        // what `ld` emits for a static program with thread-local data (seed C15j): a PT_TLS header
+        // that starts where the last loadable segment starts, with p_filesz (0) < p_memsz. The
+        // .tbss part of the template takes no address space in the image: the bytes of the
+        // PT_LOAD at those addresses are ordinary data and stay what the file says.
+        let (slot, sh, _fl) = c.segs[c.segs.len() - 1];
+        let (_fs, ms) = shape_sizes(&sh);
+        if ms > 0 {
+            segs.push(Seg { p_type: PT_TLS, flags: 4, vaddr: slot + sh.off, file: vec![], memsz: ms.min(0x20), align: 8 });
+        }
+    }
     let first = &c.segs[0];
     let (_f0, m0) = shape_sizes(&first.1);
     let base0 = first.0 + first.1.off;
@@ -280,10 +291,10 @@ fn gen(thorough: bool) -> impl Fn(&mut EnumCtx) + Sync {
                 return;
             }
             let variants: Vec<(usize, usize, usize)> = if rotate {
-                vec![(counter % 2, counter % 10, (counter / 10) % 2)]
+                vec![(counter % 4, counter % 10, (counter / 10) % 2)]
             } else {
                 let mut v = vec![];
-                for ex in 0..2 {
+                for ex in 0..4 {
                     for sy in 0..10 {
                         for en in 0..2 {
                             v.push((ex, sy, en));
@@ -410,7 +421,7 @@ pub fn run(tier: Tier) -> i32 {
     let out = run_enum(&o, &g);
     enum_evidence(&mut run, &out, "one case = a generated ET_EXEC file: 1-3 (thorough: 4 over the boundary shapes) PT_LOAD segments in every program-header order over page slots {0x400000, 0x401000, 0x403000, 0x10000000}, in-page offset {0, 0x10, 0xE10} (p_offset congruent), filesz {0, 1, 0x1F0, to page end, 0x1000, 0x2000}, bss tail {0, 1, to page end, 0x1800}, all 8 flag masks (single segment), optional PT_PHDR/PT_NOTE/PT_GNU_STACK/PT_GNU_RELRO (over the start of the last segment), 10 symbol-table variants (none; an indirect function; one function; two names at one address; a named and an unnamed symbol at one address; an undefined symbol next to a defined one; a symbol at the entry; an unnamed section symbol before a named one; a data object; symbols at the first and the last byte of the image), entry at segment start or middle; only combinations whose segments occupy distinct pages; oracle = the writer's own parameters; states = distinct files; distinct_nontrivial = distinct (file, number of violated clauses)");
     run.guard("cases", out.cases >= 50_000 || out.capped, format!("{} files", out.cases));
-    run.assume("ET_EXEC with p_vaddr != 0; executable stacks, TLS and dynamic segments are outside 'static well-formed' and exercised by C16");
+    run.assume("ET_EXEC with p_vaddr != 0; executable stacks and dynamic segments are outside 'static well-formed' and exercised by C16; a PT_TLS header (as static glibc programs carry) must leave the image alone - where FS points afterwards is not checked");
     let code = run.finish_batch(&|ws| confirm_enum(&o, &g, ws));
     code
 }
